@@ -32,10 +32,12 @@ try:
 
     TS_LANGUAGE = Language(tstypescript.language_typescript())
     TS_PARSER = Parser(TS_LANGUAGE)
+    TSX_PARSER = Parser(Language(tstypescript.language_tsx()))
     TREE_SITTER_AVAILABLE = True
 except ImportError:
     TREE_SITTER_AVAILABLE = False
     TS_PARSER = None  # type: ignore[assignment]
+    TSX_PARSER = None  # type: ignore[assignment]
     Node = Any  # type: ignore[assignment,misc]
 
 
@@ -58,7 +60,13 @@ class TypeScriptBaseAnalyzer:
         if not TREE_SITTER_AVAILABLE or TS_PARSER is None:
             return None
 
-        tree = TS_PARSER.parse(bytes(code, "utf8"))
+        source = bytes(code, "utf8")
+        tree = TS_PARSER.parse(source)
+        if tree.root_node.has_error and TSX_PARSER is not None:
+            # JSX (.tsx, .jsx, React code in .js) does not parse with the plain grammar
+            tsx_tree = TSX_PARSER.parse(source)
+            if not tsx_tree.root_node.has_error:
+                return tsx_tree.root_node
         return tree.root_node
 
     def walk_tree(self, node: Node, node_type: str) -> list[Node]:
